@@ -2,6 +2,7 @@ import ExponaxModel.Proofs.OperatorAlgebra
 import ExponaxModel.Proofs.DFT
 import ExponaxModel.Proofs.ReadOffND
 import ExponaxModel.Proofs.SpectralOpsEq
+import ExponaxModel.Proofs.SmallGaps2Poisson
 /-
 C05 — spectral differential operators are exact on band-limited fields.
 `Nonlin.deriv`, `Nonlin.laplace`, `Nonlin.poissonStep`, `Nonlin.derivativeM` mirror `exponax/_spectral.py`
@@ -123,6 +124,57 @@ theorem C05_generated_poisson (D N C : ℕ) (hD : 1 ≤ D) (hN : 0 < N) (L : ℂ
         tabC C (fun ch => Transform.irfftnM D N (Transform.tab (Layout.numModes D N) (fun h =>
           poissonStep (cfg D N L) order h ((Transform.rfftnM D N (f.getD ch #[])).getD h 0)))) :=
   ⟨Poisson_init_inv_operator_eq D N hD hN L order, Poisson_step_eq D N C hD hN L order f⟩
+
+
+
+/-! ### Poisson of every even order in physical space (order 4: gain −1/(s⁴Σκ_d⁴), opposite sign to order 2; the operator
+applied to the solution always returns −(f − mean f)), also through the regenerated `Poisson_step` -/
+
+open Exponax.SmallGaps2 in
+theorem C05_poisson4_physical :
+    ∀ (c : Nonlin.Cfg ℂ) (s : ℝ),
+      c.s = ↑s →
+        s ≠ 0 →
+          0 < c.D →
+            0 < c.N →
+              ∀ (ms : ExactLinear.Modes),
+                (∀ q ∈ ms, ExactLinear.BelowNyquist c.D c.N q.1) →
+                  Transform.irfftnM c.D c.N
+                      (ReadOff.poissonSpec c 4 (Transform.rfftnM c.D c.N (ExactLinear.stateOf c.D c.N ms))) =
+                    ExactLinear.stateOf c.D c.N (poissonModes4 c.D s ms) :=
+  @Exponax.SmallGaps2.poisson4_physical
+
+open Exponax.SmallGaps2 in
+theorem C05_poisson_even_order_solves :
+    ∀ (c : Nonlin.Cfg ℂ) (s : ℝ),
+      c.s = ↑s →
+        s ≠ 0 →
+          0 < c.D →
+            0 < c.N →
+              ∀ (n : ℕ),
+                1 ≤ n →
+                  ∀ (ms : ExactLinear.Modes),
+                    (∀ q ∈ ms, ExactLinear.BelowNyquist c.D c.N q.1) →
+                      ReadOff.specApply c.D c.N (Nonlin.laplace c (2 * n))
+                          (Transform.irfftnM c.D c.N
+                            (ReadOff.poissonSpec c (2 * n) (Transform.rfftnM c.D c.N (ExactLinear.stateOf c.D c.N ms)))) =
+                        ExactLinear.stateOf c.D c.N (negOffMean c.D (2 * n) ms) :=
+  @Exponax.SmallGaps2.poisson_even_solves
+
+open Exponax.SmallGaps2 in
+theorem C05_generated_poisson_even_physical :
+    ∀ (D N C n : ℕ),
+      1 ≤ n →
+        1 ≤ D →
+          0 < N →
+            ∀ (L : ℝ),
+              L ≠ 0 →
+                ∀ (f : Nonlin.MC ℂ) (ms : ℕ → ExactLinear.Modes),
+                  (∀ ch < C, ∀ q ∈ ms ch, ExactLinear.BelowNyquist D N q.1) →
+                    (∀ ch < C, Array.getD f ch #[] = ExactLinear.stateOf D N (ms ch)) →
+                      Gen.SpectralOps.Poisson_step D N C (↑L) (2 * n) f =
+                        Nonlin.tabC C fun ch ↦ ExactLinear.stateOf D N (poissonModesEven D (2 * Real.pi / L) n (ms ch)) :=
+  @Exponax.SmallGaps2.generated_poisson_even_physical
 
 
 end Exponax
